@@ -131,14 +131,14 @@ def preRefuse (c : Cfg) (s : MSt) (via : Via) (expiry now : Int) : Bool :=
 /-- The value that ends up in `acknowledgement_expiry`.
     api: apiactions.cpp:267-268 passes `(…, Utility::GetTime(), timestamp)`;
     ext: externalcommandprocessor.cpp:620, 694 pass no expiry (default 0);
-    extExpire: :650, :724 pass `timestamp` as the *sixth* argument of `Checkable::AcknowledgeProblem`, which is
-      `changeTime` (checkable.hpp:91) — the seventh, `expiry`, keeps its default 0;
+    extExpire: :650, :724 pass `(…, Utility::GetTime(), timestamp)` (since the repair of F-C06a, commit 6eaa5f1;
+      before it `timestamp` landed in `changeTime` and the expiry stayed 0);
     cluster: clusterevents.cpp:843-845 passes `params->Get("expiry")`. -/
 def storedExpiry (via : Via) (expiry : Int) : Int :=
   match via with
   | .api => expiry
   | .ext => 0
-  | .extExpire => 0
+  | .extExpire => expiry
   | .cluster => expiry
 
 /-- `Comment::AddComment(checkable, CommentAcknowledgement, …)` precedes `AcknowledgeProblem` in the API action and
